@@ -11,7 +11,7 @@
 Python is glue: it chooses random inputs, renders values and decodes output text; it computes no expected result."""
 import json, os, random, re, shutil, concurrent.futures as cf
 from .. import build, tlc, known, functorvec as fv
-from ..common import SPEC, workdir, seed, Result, write_data, log, NCPU
+from ..common import SPEC, REPO, workdir, seed, Result, write_data, log, NCPU
 from ..common import run as sh
 from ..evidence import finish
 
@@ -20,6 +20,10 @@ FAMILIES = ["signed", "unsigned", "float", "symbol", "frange"]     # one souffle
 K_TOSTRING = "compiled-to_string-ignores-type"
 K_NEGZERO = "compiled-negative-zero-literal"
 K_FRANGE = "compiled-float-range-arguments-not-bitcast"
+# float operators that IEEE-754 / libm define on every argument: where the spec has no value (the exact result is not a
+# binary32 normal number: rounding, overflow, underflow, non-integral exponent) the two back-ends must still agree
+DIFF_OPS = {"FADD", "FSUB", "FMUL", "FDIV", "FEXP", "I2F", "U2F"}
+SAMPLE_OPS = ["UDIV", "BSHIFT_R", "UMUL", "MOD", "UEXP", "UGT", "FSUB", "FDIV", "F2I", "S2F", "SUBSTR", "MATCH", "RANGE", "FMAX"]
 
 def cj(x):
     return json.dumps(x, separators=(",", ":"))
@@ -48,7 +52,7 @@ def plan(vecs, tier, res):
     fact ('text').  Returns dict family -> list of units {op, arity, inst: [instance]}."""
     rng = random.Random(seed() * 104729 + 24)
     ktext = 5 if tier == "quick" else 40
-    groups = {}
+    groups = {}; diff = {}
     unknown = sorted({v["op"] for v in vecs} - set(fv.OPS))
     if unknown:
         res.infra_errors.append("MC_Functors.tla enumerates operators the renderer does not know: %s" % unknown)
@@ -59,9 +63,9 @@ def plan(vecs, tier, res):
         res.count("vectors_enumerated")
         if not v["def"]:
             res.count("vectors_outside_spec_domain")
-            if v["op"] in ("FADD", "FSUB", "FMUL", "FDIV", "FEXP", "I2F", "U2F", "S2F", "F2S", "FRANGE") and \
-                    all(not isinstance(a, list) or a[0] == "fin" for a in v["a"]):
-                res.count("float_vectors_dropped_because_result_is_not_exact")
+            if v["op"] in DIFF_OPS:      # IEEE defines these everywhere; the spec only lacks the (rounded) value
+                res.count("float_vectors_without_specified_value_run_differentially")
+                diff.setdefault((v["op"], len(v["a"])), []).append(v)
             continue
         groups.setdefault((v["op"], len(v["a"])), []).append(v)
     fams = {f: [] for f in FAMILIES}
@@ -72,6 +76,9 @@ def plan(vecs, tier, res):
         for v in vs:
             nid += 1
             insts.append({"id": nid, "path": "file", "v": v})
+        for v in diff.get((op, arity), []):
+            nid += 1
+            insts.append({"id": nid, "path": "file", "v": v, "diff": True})
         lit = [v for v in vs if all(fv.value_text(a, t, True) is not None for a, t in zip(v["a"], ts))]
         negz = [v for v in lit if any(a == ["zero", 1] for a in v["a"] if isinstance(a, list))]
         chosen = ([rng.choice(negz)] if negz else []) + rng.sample(lit, min(ktext, len(lit)))
@@ -163,13 +170,32 @@ def classify(u, inst, backend, verdict, detail, other_ok, ctx):
             return K_NEGZERO
     return None
 
+def enumerators(path, enum):
+    with open(path) as f:
+        txt = f.read()
+    body = re.search(r"enum class %s\s*\{(.*?)\};" % enum, txt, re.S).group(1)
+    body = re.sub(r"//[^\n]*|/\*.*?\*/", "", body, flags=re.S)
+    return [x.strip() for x in body.split(",") if x.strip()]
+
+def check_enumerators(res):
+    """Every FunctorOp / BinaryConstraintOp enumerator of the tree under test is specified or named as left out."""
+    have = {{"UEQ": "EQ", "SEQ": "EQ", "UNE": "NE", "SNE": "NE"}.get(o, o) for o in fv.OPS}
+    left_out = {"ORD"}
+    ops = enumerators(os.path.join(REPO, "src", "FunctorOps.h"), "FunctorOp") + \
+        enumerators(os.path.join(REPO, "src", "include", "souffle", "BinaryConstraintOps.h"), "BinaryConstraintOp")
+    new = sorted(set(ops) - have - left_out)
+    if new:
+        res.infra_errors.append("enumerators of the tree under test that spec/Functors.tla does not cover: %s" % new)
+    res.cov["enumerators_in_the_tree"] = len(ops)
+
 def run(tier, replay=None):
     res = Result(PID, tier)
     build.ensure_souffle()
     wd = workdir(PID)
     if replay:
         return run_replay(res, wd, replay)
-    vecs, tr = spec_vectors(wd, tier, res, per_op=(10 if tier == "quick" else 600))
+    check_enumerators(res)
+    vecs, tr = spec_vectors(wd, tier, res, per_op=(10 if tier == "quick" else 1500))
     if vecs is None:
         return finish(res, "model_checking")
     fams = plan(vecs, tier, res)
@@ -234,6 +260,19 @@ def execute(res, wd, fams, tier):
                     if extra:
                         bad.setdefault((backend, u["op"], u["arity"], "rows for unknown ids"), []).append({"ids": extra[:10]})
             for inst in u["inst"]:
+                if inst.get("diff"):
+                    if rows["interpreter"] is None or rows["compiled"] is None:
+                        continue
+                    ri = rows["interpreter"].get(inst["id"]) or []; rc = rows["compiled"].get(inst["id"]) or []
+                    judged += 1; res.count("differential_only_comparisons")
+                    if len(ri) != 1 or len(rc) != 1 or ri[0][0] != inst["v"]["a"] or rc[0][0] != inst["v"]["a"] or ri[0][1] != rc[0][1]:
+                        bad.setdefault(("compiled", u["op"], u["arity"], "interpreter and compiled code disagree (no specified "
+                                        "value: the exact result is not representable)"), []).append(
+                            {"op": u["op"], "args": inst["v"]["a"], "id": inst["id"], "spec": [], "interpreter": ri, "compiled": rc})
+                    elif "diff" not in samples:
+                        samples["diff"] = (0, {"op": u["op"], "args": inst["v"]["a"], "spec": "no exact value (rounded): differential only",
+                                               "interpreter": ri[0][1], "compiled": rc[0][1]})
+                    continue
                 verdicts = {}
                 for backend in ("interpreter", "compiled"):
                     if rows[backend] is None:
@@ -255,12 +294,14 @@ def execute(res, wd, fams, tier):
                             res.count("instances_not_judged_argument_lost_by_known_finding")
                     else:
                         bad.setdefault((backend, u["op"], u["arity"], verdict), []).append(ex)
-                if len(verdicts) == 2 and all(x[0] == "ok" for x in verdicts.values()):
-                    key = (fam, inst["v"]["k"])
-                    if samples.get(key, 0) < 1 and (inst["id"] % 7 == 3 or inst["v"]["op"] in ("UDIV", "FDIV", "SUBSTR")):
-                        samples[key] = 1
-                        res.sample({"op": u["op"], "args": inst["v"]["a"], "spec": inst["v"]["r"], "input_path": inst["path"],
-                                    "interpreter": verdicts["interpreter"][1], "compiled": verdicts["compiled"][1]}, limit=12)
+                if len(verdicts) == 2 and all(x[0] == "ok" for x in verdicts.values()) and u["op"] in SAMPLE_OPS:
+                    cand = {"op": u["op"], "args": inst["v"]["a"], "spec": inst["v"]["r"], "input_path": inst["path"],
+                            "interpreter": verdicts["interpreter"][1], "compiled": verdicts["compiled"][1]}
+                    if len(cj(cand["args"])) + len(cj(cand["spec"])) > samples.get(u["op"], (0, None))[0]:
+                        samples[u["op"]] = (len(cj(cand["args"])) + len(cj(cand["spec"])), cand)     # the longest numerals: least trivial
+    for op in SAMPLE_OPS + ["diff"]:
+        if op in samples:
+            res.sample(samples[op][1], limit=len(SAMPLE_OPS) + 1)
     if frange_stuck:
         interp_ok = outs.get(("frange", "interpreter")) is not None and not any(k[0] == "interpreter" and k[1] == "FRANGE" for k in bad)
         n = sum(len(u["inst"]) for u in fams.get("frange", []))
@@ -277,14 +318,15 @@ def execute(res, wd, fams, tier):
         with open(rp, "w") as f:
             json.dump({"property": PID, "kind": "vectors", "backend": backend, "op": op, "arity": arity, "what": verdict,
                        "count": len(exs), "examples": exs[:50],
-                       "vectors": [{"op": op, "a": e["args"], "k": fv.kind(op), "r": e["spec"], "def": True, "alt": []}
+                       "vectors": [{"op": op, "a": e["args"], "k": fv.kind(op), "r": e["spec"], "def": True, "alt": [],
+                                    "diff": verdict.startswith("interpreter and compiled")}
                                    for e in exs[:50] if "args" in e]}, f, indent=1)
         what = {"result": "result differs from the specification", "transport": "an argument value arrived changed"}.get(verdict, verdict)
         res.violations.append(("[%s] %s/%d: %s on %d vector(s); first: %s" % (backend, op, arity, what, len(exs), cj(exs[0])[:600]), rp))
     for fid, exs in sorted(known_hits.items()):
         res.known.append(known.describe(kf, PID, fid) + "  [met on %d vector(s); e.g. %s]" % (len(exs), cj(exs[0])[:300]))
         res.count("known_finding_hits", len(exs))
-        res.sample({"known_finding": fid, "example": exs[0]}, limit=12)
+        res.sample({"known_finding": fid, "example": exs[0]}, limit=len(SAMPLE_OPS) + 5)
     res.cov["traces_validated_against_impl"] = judged
     ninst = sum(len(u["inst"]) for f in fams.values() for u in f)
     res.cov.update({"operators_specified": len(fv.OPS), "operator_arity_units": sum(len(f) for f in fams.values()),
@@ -318,7 +360,7 @@ def run_replay(res, wd, path):
         ts = fv.argtypes(v["op"], len(v["a"]))
         literal = all(fv.value_text(a, t, True) is not None for a, t in zip(v["a"], ts))
         groups.setdefault((v["op"], len(v["a"])), []).append(
-            {"id": i + 1, "path": rp.get("input_path", "text") if literal else "file", "v": v})
+            {"id": i + 1, "path": rp.get("input_path", "text") if literal else "file", "v": v, "diff": bool(v.get("diff"))})
     for (op, arity), insts in groups.items():
         fams[fv.family(op, arity)].append({"op": op, "arity": arity, "inst": insts})
     return execute(res, wd, fams, "quick")
